@@ -132,7 +132,7 @@ func mutateTokens(r *rand.Rand, toks []string, alphabet []string) ([]string, str
 	}
 	i := r.Intn(len(out))
 	pick := func() string {
-		if r.Intn(3) == 0 {
+		if r.Intn(3) == 0 || len(alphabet) == 0 {
 			return structural[r.Intn(len(structural))]
 		}
 		return alphabet[r.Intn(len(alphabet))]
